@@ -3298,8 +3298,15 @@ class Parameters:
             value = self_or_cls.param.get_value_generator(name)
             if name == 'name' and onlychanged and _is_auto_name(self_.cls.__name__, value):
                 continue
-            if not onlychanged or not Comparator.is_equal(value, val.default):
-                vals.append((name, value))
+            if onlychanged:
+                # "changed" is relative to what a new instance would hold:
+                # the default of the class Parameter (an instance-level copy
+                # of the Parameter keeps the default it was copied with)
+                default = (val.default if self_.self is None
+                           else _class_default(self_.self, val))
+                if Comparator.is_equal(value, default):
+                    continue
+            vals.append((name, value))
 
         vals.sort(key=itemgetter(0))
         return dict(vals)
